@@ -98,8 +98,10 @@ type c02Kern struct {
 	shRules   [][24]byte
 	shMeta    int64
 	shSlots   map[uint32]uint32 // slot -> inner map id
+	shSlotKeys map[uint32]string
 	shDom     map[[16]byte]string
 	goViol    []string
+	envFail   []string // the sandbox refused a bpf(2) operation the harness itself needs (privilege / kernel feature): exit 2, never a verdict
 	maxSets   int
 	maxTries  int
 	lastSlots map[uint32]struct{}
@@ -112,7 +114,7 @@ type c02Kern struct {
 
 func c02NewKern(name string, stats *VStats, log *logrus.Logger) *c02Kern {
 	k := &c02Kern{st: VOpenStream(name), stats: stats, log: log, shMeta: -1,
-		shSlots: map[uint32]uint32{}, shDom: map[[16]byte]string{}, lastSlots: map[uint32]struct{}{}}
+		shSlots: map[uint32]uint32{}, shSlotKeys: map[uint32]string{}, shDom: map[[16]byte]string{}, lastSlots: map[uint32]struct{}{}}
 	k.shRules = make([][24]byte, consts.MaxMatchSetLen)
 	must := func(m *ebpf.Map, err error) *ebpf.Map {
 		if err != nil {
@@ -147,15 +149,14 @@ func (k *c02Kern) sync() {
 			if _, had := k.shSlots[s]; had {
 				k.st.Emit(fmt.Sprintf("lpmdel %d", s), "ok")
 				delete(k.shSlots, s)
+				delete(k.shSlotKeys, s)
 			}
 			continue
 		}
-		if old, had := k.shSlots[s]; had && old == id {
-			continue
-		}
+		_ = id
 		im, err := ebpf.NewMapFromID(ebpf.MapID(id))
 		if err != nil {
-			k.goViol = append(k.goViol, fmt.Sprintf("cannot open inner LPM map of slot %d: %v", s, err))
+			k.envFail = append(k.envFail, fmt.Sprintf("BPF_MAP_GET_FD_BY_ID (needs CAP_SYS_ADMIN) on the inner LPM map of slot %d: %v", s, err))
 			continue
 		}
 		var keys []string
@@ -167,11 +168,16 @@ func (k *c02Kern) sync() {
 			keys = append(keys, c02LpmKeyTok(&kk))
 		}
 		if it.Err() != nil {
-			k.goViol = append(k.goViol, fmt.Sprintf("iterating inner LPM map of slot %d: %v", s, it.Err()))
+			k.envFail = append(k.envFail, fmt.Sprintf("iterating inner LPM map of slot %d: %v", s, it.Err()))
 		}
 		_ = im.Close()
 		sort.Strings(keys)
-		k.st.Emit(fmt.Sprintf("lpm %d %d %s", s, len(keys), strings.Join(keys, " ")), "ok")
+		content := strings.Join(keys, " ")
+		if old, had := k.shSlotKeys[s]; had && old == content && k.shSlots[s] == id {
+			continue
+		}
+		k.shSlotKeys[s] = content
+		k.st.Emit(fmt.Sprintf("lpm %d %d %s", s, len(keys), content), "ok")
 		k.shSlots[s] = id
 	}
 	// routing_map
@@ -179,7 +185,7 @@ func (k *c02Kern) sync() {
 	for i := 0; i < consts.MaxMatchSetLen; i++ {
 		var ms bpfMatchSet
 		if err := k.bpf.RoutingMap.Lookup(uint32(i), &ms); err != nil {
-			k.goViol = append(k.goViol, fmt.Sprintf("routing_map[%d]: %v", i, err))
+			k.envFail = append(k.envFail, fmt.Sprintf("lookup routing_map[%d]: %v", i, err))
 			break
 		}
 		img := *(*[24]byte)(unsafe.Pointer(&ms))
@@ -227,6 +233,24 @@ func (k *c02Kern) sync() {
 	k.shDom = cur
 }
 
+// observedStart: (set index in the dumped kernel image − set index the builder wrote) mod MAX_MATCH_SET_LEN of
+// the first address-set rule; dflt when the program has no address set.
+func (k *c02Kern) observedStart(rules []bpfMatchSet, dflt uint32) uint32 {
+	n := uint32(consts.MaxMatchSetLen)
+	for i, r := range rules {
+		switch consts.MatchType(r.Type) {
+		case consts.MatchType_IpSet, consts.MatchType_SourceIpSet, consts.MatchType_Mac:
+			if i < len(k.shRules) {
+				old := *(*uint32)(unsafe.Pointer(&r.Value[0]))
+				img := k.shRules[i]
+				kern := *(*uint32)(unsafe.Pointer(&img[0]))
+				return (kern%n + n - old%n) % n
+			}
+		}
+	}
+	return dflt
+}
+
 func (k *c02Kern) emitTyped(compiled []compiledRoutingMatch, tries [][]netip.Prefix) {
 	toks := make([]string, len(compiled))
 	for i := range compiled {
@@ -246,6 +270,7 @@ func (k *c02Kern) emitTyped(compiled []compiledRoutingMatch, tries [][]netip.Pre
 
 type c02Gen struct {
 	plane    *ControlPlane
+	rules    []bpfMatchSet
 	compiled []compiledRoutingMatch
 	tries    [][]netip.Prefix
 	start    uint32
@@ -295,8 +320,7 @@ func (k *c02Kern) reload(b *RoutingMatcherBuilder, cur **c02Gen) (*RoutingMatche
 		return nil, bres
 	}
 	k.emitTyped(compiled, tries)
-	start := globalNextLpmIndex.Load()
-	k.st.Emit(fmt.Sprintf("reserve %d %d", len(tries), start), "ok")
+	predicted := globalNextLpmIndex.Load()
 	plane := &ControlPlane{log: k.log, routingKernspaceSnapshot: snap, sharedBpfReload: true}
 	plane.connStateJanitorStarted.Store(true)
 	if k.withDns {
@@ -346,12 +370,11 @@ func (k *c02Kern) reload(b *RoutingMatcherBuilder, cur **c02Gen) (*RoutingMatche
 		if k.plane != nil && *cur != nil {
 			g := *cur
 			k.emitTyped(g.compiled, g.tries)
-			st2 := globalNextLpmIndex.Load()
-			k.st.Emit(fmt.Sprintf("reserve %d %d", len(g.tries), st2), "ok")
 			if e := k.plane.RebuildReloadDatapath(); e != nil {
 				k.goViol = append(k.goViol, "RebuildReloadDatapath of the previous generation failed: "+e.Error())
 			} else {
 				k.sync()
+				k.st.Emit(fmt.Sprintf("reserve %d %d", len(g.tries), k.observedStart(g.rules, globalNextLpmIndex.Load())), "ok")
 				k.st.Emit("instcheck", "ok")
 				k.stats.Inc("reload.previous_generation_restored")
 			}
@@ -359,8 +382,8 @@ func (k *c02Kern) reload(b *RoutingMatcherBuilder, cur **c02Gen) (*RoutingMatche
 		return nil, "err:kernel:" + fmt.Sprint(err) + res
 	}
 	k.stats.Inc("reload." + mode)
-	if uint32(len(tries)) > 0 && (start+uint32(len(tries))) > uint32(consts.MaxMatchSetLen) {
-		k.stats.Inc("ring.wraps")
+	if uint32(len(tries)) > 0 && (predicted+uint32(len(tries))) >= uint32(consts.MaxMatchSetLen) {
+		k.stats.Inc("ring.wraps") // this generation reaches or crosses the end of the ring
 	}
 	// slots shared by consecutive generations (possible only when their sizes add up to > 1024)
 	newSlots := map[uint32]struct{}{}
@@ -386,9 +409,16 @@ func (k *c02Kern) reload(b *RoutingMatcherBuilder, cur **c02Gen) (*RoutingMatche
 	} else {
 		k.checkDomainTable("after reload (" + mode + ")")
 	}
+	// the ring start is READ BACK from what was installed (kernel image index − typed index of the first
+	// address-set rule), not predicted from the allocator: the allocation policy is not part of the property
+	start := k.observedStart(rules, predicted)
+	if start != predicted {
+		k.stats.Inc("ring.start_differs_from_counter_before_build")
+	}
+	k.st.Emit(fmt.Sprintf("reserve %d %d", len(tries), start), "ok")
 	k.st.Emit("instcheck", "ok")
 	k.plane = plane
-	*cur = &c02Gen{plane: plane, compiled: compiled, tries: tries, start: start}
+	*cur = &c02Gen{plane: plane, compiled: compiled, tries: tries, start: start, rules: rules}
 	if len(rules) > k.maxSets {
 		k.maxSets = len(rules)
 	}
@@ -464,20 +494,20 @@ func (k *c02Kern) answer(name string, addrs ...netip.Addr) {
 	for _, a := range addrs {
 		if a.Is4() {
 			b := a.As4()
-			a4 = append(a4, &dnsmessage.A{Hdr: dnsmessage.RR_Header{Name: name + ".", Rrtype: dnsmessage.TypeA, Class: dnsmessage.ClassINET, Ttl: 300}, A: net.IP(b[:])})
+			a4 = append(a4, &dnsmessage.A{Hdr: dnsmessage.RR_Header{Name: name + ".", Rrtype: dnsmessage.TypeA, Class: dnsmessage.ClassINET, Ttl: 86400}, A: net.IP(b[:])})
 		} else {
 			b := a.As16()
-			a6 = append(a6, &dnsmessage.AAAA{Hdr: dnsmessage.RR_Header{Name: name + ".", Rrtype: dnsmessage.TypeAAAA, Class: dnsmessage.ClassINET, Ttl: 300}, AAAA: net.IP(b[:])})
+			a6 = append(a6, &dnsmessage.AAAA{Hdr: dnsmessage.RR_Header{Name: name + ".", Rrtype: dnsmessage.TypeAAAA, Class: dnsmessage.ClassINET, Ttl: 86400}, AAAA: net.IP(b[:])})
 		}
 	}
 	ctrl := k.plane.dnsController
 	if len(a4) > 0 {
-		if err := ctrl.UpdateDnsCacheTtl(name+".", dnsmessage.TypeA, a4, nil, nil, 300); err != nil {
+		if err := ctrl.UpdateDnsCacheTtl(name+".", dnsmessage.TypeA, a4, nil, nil, 86400); err != nil {
 			k.goViol = append(k.goViol, "UpdateDnsCacheTtl: "+err.Error())
 		}
 	}
 	if len(a6) > 0 {
-		if err := ctrl.UpdateDnsCacheTtl(name+".", dnsmessage.TypeAAAA, a6, nil, nil, 300); err != nil {
+		if err := ctrl.UpdateDnsCacheTtl(name+".", dnsmessage.TypeAAAA, a6, nil, nil, 86400); err != nil {
 			k.goViol = append(k.goViol, "UpdateDnsCacheTtl: "+err.Error())
 		}
 	}
@@ -540,7 +570,9 @@ func (k *c02Kern) packetX(m *RoutingMatcher, pk c01Pkt, v c02Variant, ipver cons
 	var pname [16]byte
 	if v.wan && v.hasPn {
 		pname = pk.pname
+		pname[15] = 0 // bpf_get_current_comm NUL-terminates within TASK_COMM_LEN
 	}
+	pk.dscp &= 0x3f // the hooks deliver tos >> 2
 	// domain bitmap
 	ubm := "-"
 	if !writeDom {
@@ -564,7 +596,7 @@ func (k *c02Kern) packetX(m *RoutingMatcher, pk c01Pkt, v c02Variant, ipver cons
 			// the writer of domain_routing_tracker.syncOwner: native-word key, production batch update
 			if _, err := BpfMapBatchUpdate(k.bpf.DomainRoutingMap, [][4]uint32{common.Ipv6ByteSliceToUint32Array(dst16[:])},
 				[]bpfDomainRouting{dr}, &ebpf.BatchOptions{ElemFlags: uint64(ebpf.UpdateAny)}); err != nil {
-				k.goViol = append(k.goViol, "update domain_routing_map: "+err.Error())
+				k.envFail = append(k.envFail, "harness write to domain_routing_map (BpfMapBatchUpdate): "+err.Error())
 				return
 			}
 			var back bpfDomainRouting
@@ -591,7 +623,7 @@ func (k *c02Kern) packetX(m *RoutingMatcher, pk c01Pkt, v c02Variant, ipver cons
 		if _, ok := k.shDom[dst16]; ok {
 			// the DNS cache entry expired: the tracker deletes the address
 			if _, err := BpfMapBatchDelete(k.bpf.DomainRoutingMap, [][4]uint32{common.Ipv6ByteSliceToUint32Array(dst16[:])}); err != nil {
-				k.goViol = append(k.goViol, "delete from domain_routing_map: "+err.Error())
+				k.envFail = append(k.envFail, "harness delete from domain_routing_map (BpfMapBatchDelete): "+err.Error())
 				return
 			}
 			k.st.Emit("domdel "+hex.EncodeToString(dst16[:]), "ok")
@@ -784,7 +816,7 @@ func TestVerifC02(t *testing.T) {
 	for i, n := range c01Outs {
 		name2id[n] = uint8(i)
 	}
-	var allViol []string
+	var allViol, allEnv []string
 
 	// ---------------------------------------------------------------- main stream
 	k := c02NewKern("c02", stats, log)
@@ -865,6 +897,7 @@ func TestVerifC02(t *testing.T) {
 	stats.Add("max_matchsets_in_a_program", k.maxSets)
 	stats.Add("max_lpm_tries_in_a_program", k.maxTries)
 	allViol = append(allViol, k.goViol...)
+	allEnv = append(allEnv, k.envFail...)
 	k.close()
 
 	// ---------------------------------------------------------------- empty-process-name replay (former finding #6, fix C02.fix1)
@@ -887,6 +920,7 @@ func TestVerifC02(t *testing.T) {
 		}
 	}
 	allViol = append(allViol, f.goViol...)
+	allEnv = append(allEnv, f.envFail...)
 	f.close()
 	_ = os.WriteFile(filepath.Join(VOutDir(), "c02f6.note"), []byte(f6note+"\n"), 0o644)
 
@@ -963,6 +997,7 @@ func TestVerifC02(t *testing.T) {
 		}
 	}
 	allViol = append(allViol, g.goViol...)
+	allEnv = append(allEnv, g.envFail...)
 	g.close()
 	_ = os.WriteFile(filepath.Join(VOutDir(), "c02big.note"), []byte(strings.Join(bigNote, "\n")+"\n"), 0o644)
 
@@ -1020,12 +1055,12 @@ func TestVerifC02(t *testing.T) {
 			d.domPackets()
 			// the running generation restores its own datapath (what the reload handler does after a failed staged reload)
 			d.emitTyped(dcur.compiled, dcur.tries)
-			d.st.Emit(fmt.Sprintf("reserve %d %d", len(dcur.tries), globalNextLpmIndex.Load()), "ok")
 			if err := d.plane.RebuildReloadDatapath(); err != nil {
 				d.goViol = append(d.goViol, "RebuildReloadDatapath: "+err.Error())
 			} else {
 				stats.Inc("dom.self_rebuild")
 				d.sync()
+				d.st.Emit(fmt.Sprintf("reserve %d %d", len(dcur.tries), d.observedStart(dcur.rules, globalNextLpmIndex.Load())), "ok")
 				d.st.Emit("instcheck", "ok")
 				d.checkDomainTable("after RebuildReloadDatapath of the running generation")
 				d.domPackets()
@@ -1034,9 +1069,15 @@ func TestVerifC02(t *testing.T) {
 			if domReload(3, []int{3, 0, 2, 1}) {
 				d.domPackets()
 			}
+			// every domain set beyond index 96: the names' bitmaps live in word 3 only
+			if domReload(100, []int{2, 0, 3, 1}) {
+				stats.Inc("dom.generation_with_high_index_domain_sets")
+				d.domPackets()
+			}
 		}
 	}
 	allViol = append(allViol, d.goViol...)
+	allEnv = append(allEnv, d.envFail...)
 	d.close()
 	_ = os.WriteFile(filepath.Join(VOutDir(), "c02dom.note"), []byte(strings.Join(domNote, "\n")+"\n"), 0o644)
 
@@ -1089,5 +1130,6 @@ func TestVerifC02(t *testing.T) {
 	e.Close()
 
 	_ = os.WriteFile(filepath.Join(VOutDir(), "c02.goviol"), []byte(strings.Join(allViol, "\n")), 0o644)
+	_ = os.WriteFile(filepath.Join(VOutDir(), "c02.envfail"), []byte(strings.Join(allEnv, "\n")), 0o644)
 	stats.Write("c02")
 }
